@@ -7,6 +7,7 @@ mod c04;
 mod c05;
 mod c16;
 mod c18;
+mod c19large;
 mod c20;
 mod ktypes;
 
@@ -48,6 +49,7 @@ fn main() {
         "c16-xproc" => c16::xproc(&opts),
         "c20-serde" => run(c20::SerdeCheck, &opts),
         "c20-export" => run(c20::ExportCheck, &opts),
+        "c19-large" => c19large::run(&opts),
         "c18-consumer" => run(c18::Consumer, &opts),
         "c18-mphf-serial" => run(c18::MphfSerial, &opts),
         _ => {
